@@ -197,6 +197,9 @@ class ConvexSpheropolygon(Shape2D):
         angles = np.mod(angles, 2 * np.pi)
         num_verts = self.num_vertices
         verts = self._polygon.vertices[:, :2] - self._polygon.centroid[:2]
+        if self._polygon.normal[2] < 0:
+            # The arcs below assume counterclockwise vertices in the xy-plane.
+            verts = verts[::-1]
 
         # compute intermediates
         v1 = np.roll(verts, 1, axis=0)
